@@ -67,6 +67,13 @@ fn gen(rng: &mut Rng, idx: u64, tier: Tier) -> Case {
             if rng.chance(0.2) { acs[a].sq = [rng.below(8), rng.below(8), rng.below(8), rng.below(8)]; }
             if rng.chance(0.2) && !twins { acs[a].callsign = gen::callsign(rng); }
             if rng.chance(0.1) { acs[a].ca = rng.below(8); }
+            if n_ac > 1 && rng.chance(0.04) {
+                // a resolution advisory of this aircraft naming another tracked aircraft as the intruder
+                let other = acs[(a + 1) % n_ac].icao;
+                let f = gen::acas_ra_frame(rng, &acs[a], other);
+                lines.push((gen::gap_us(rng, d).min(3_000_000), gen::line_of(rng, &f, false), "acas-ra-names-other".into()));
+                continue;
+            }
             let kind = if rng.chance(0.1) { Kind::Df18 } else { *rng.pick(gen::COMMON_KINDS) };
             let vflag = rng.chance(0.7);
             let f = if rng.chance(0.8) { gen::frame(rng, &mut acs[a], kind, vflag) } else { invalid_variant(rng, &mut acs[a], kind) };
